@@ -59,6 +59,13 @@ def states(tier, seed):
             st.append(dict(part="m0", surfs=ss, M=0.0, alpha=al, beta=0.0, rot=False, fam=fam))
     for ss, al in itertools.product(surf_sets(tier)[:: 3 if tier == "quick" else 1], [5.0, -10.0]):
         st.append(dict(part="cont", surfs=ss, alpha=al, fam=fam))
+    # the compressible option inside the aerostructural point: at Mach 0 (no sideslip) it coincides with the incompressible one
+    for model, side, al in itertools.product(["tube", "wingbox"], ["left", "right", "full"], [4.0, -3.0]):
+        st.append(dict(part="as_m0", model=model, side=side, alpha=al, surfs=[], fam=fam))
+    # ... and at M > 0, with sideslip, its forces are the Prandtl-Glauert transform of the incompressible solution on the CONVERGED
+    # deformed mesh
+    for model, M, al, be in itertools.product(["tube", "wingbox"], [0.3, 0.84], [4.0], [0.0, 5.0]):
+        st.append(dict(part="as_pg", model=model, M=M, alpha=al, beta=be, surfs=[], fam=fam))
     # rotation rates at M > 0: the onset flow handed to the equivalent incompressible problem must be a rigid-body rotation field
     # OF THE STRETCHED GEOMETRY (some omega', u with v_i = omega' x r'_i + u) - "the incompressible problem on the geometry
     # rotated into the wind frame and stretched"; no particular omega' is demanded
@@ -91,7 +98,60 @@ def forces(p, n):
     return [p["ap.aero_states.s%d_sec_forces" % k].copy() for k in range(n)]
 
 
+def part_as_m0(s):
+    sym = s["side"] != "full"
+    m = gen.make_mesh("swept", 2, 3 if sym else 5, s["side"], s["fam"], asym=not sym, span=10.0, chord=1.6)
+    out = []
+    for comp in (True, False):
+        kw = dict(struct_weight_relief=True, with_viscous=True, with_wave=True)
+        surf = builders.struct_surface("wing", m, sym, s["model"], **kw)
+        p = builders.build_aerostruct([surf], dict(Mach_number=0.0 if comp else 0.0, W0=2.0e3, v=100.0, rho=0.9, alpha=s["alpha"], speed_of_sound=200.0, R=2.0e6, load_factor=1.3), compressible=comp)
+        builders.tighten(p, nl="default", lin="default")
+        # Breguet range divides by the Mach number: the performance group is not part of this comparison
+        p.run_model()
+        A = "AS_point_0.coupled."
+        out.append({k: np.array(p[A + k], dtype=float).copy() for k in ("aero_states.wing_sec_forces", "wing.disp", "wing_loads.loads", "wing.def_mesh")})
+    viol, val = [], 0
+    for k in out[0]:
+        val += 1
+        sc = max(np.abs(out[1][k]).max(), 1e-300)
+        e = np.abs(out[0][k] - out[1][k]).max() / sc
+        if not e <= 1e-7:
+            viol.append(dict(sig=dict(oracle="mach0_identity_aerostructural", observable=k.split(".")[-1], model=s["model"]), msg="M=0: %s of the compressible and the incompressible aerostructural point differ by %.2e" % (k, e), measure=float(e)))
+    return dict(viol=viol, nontrivial=bool(np.abs(out[1]["wing.disp"]).max() > 1e-9), digest=digest_arrays(out[1]["wing.disp"]), transitions=2, validated=val)
+
+
+def part_as_pg(s):
+    m = gen.make_mesh("swept", 2, 5, "full", s["fam"], asym=True, span=10.0, chord=1.6)
+    surf = builders.struct_surface("wing", m, False, s["model"], struct_weight_relief=True, with_viscous=True)
+    M, alpha, beta = s["M"], s["alpha"], s["beta"]
+    p = builders.build_aerostruct([surf], dict(Mach_number=M, W0=2.0e3, v=100.0, rho=0.9, alpha=alpha, beta=beta, speed_of_sound=200.0, R=2.0e6, load_factor=1.3), compressible=True)
+    builders.tighten(p, nl="default", lin="default")
+    p.run_model()
+    A = "AS_point_0.coupled."
+    dm = np.array(p[A + "wing.def_mesh"], dtype=float)
+    Fc = np.array(p[A + "aero_states.wing_sec_forces"], dtype=float)
+    a, b = np.radians(alpha), np.radians(beta)
+    ca, sa, cb, sb = np.cos(a), np.sin(a), np.cos(b), np.sin(b)
+    Tw = np.array([[cb * ca, -sb, cb * sa], [sb * ca, cb, sb * sa], [-sa, 0, ca]])
+    B = np.sqrt(1 - M * M)
+    mt = np.einsum("lk,ijk->ijl", Tw, dm) * np.array([1, B, B])
+    q = builders.build_aero([builders.aero_surface("s0", mt, False)], dict(v=100.0, alpha=0.0, beta=0.0, rho=0.9, Mach_number=0.0, cg=[0.3, 0.0, 0.1]))
+    q.run_model()
+    Fi = np.einsum("lk,ijk->ijl", Tw.T, np.array(q["ap.aero_states.s0_sec_forces"]) * np.array([1 / B**4, 1 / B**3, 1 / B**3]))
+    sc = max(np.abs(Fi).max(), gen.force_floor(0.9, 100.0, [m]))
+    e = np.abs(Fc - Fi).max() / sc
+    viol = []
+    if not e <= TOL:
+        viol.append(dict(sig=dict(oracle="pg_transformation_aerostructural", model=s["model"], sideslip=bool(beta != 0.0)), msg="compressible aerostructural point: forces on the converged deformed mesh differ from the transformed incompressible solution by %.2e (M=%g alpha=%g beta=%g)" % (e, M, alpha, beta), measure=float(e)))
+    return dict(viol=viol, nontrivial=bool(np.abs(dm - m).max() > 1e-6), digest=digest_arrays(Fc), transitions=2, validated=1)
+
+
 def run_state(s):
+    if s["part"] == "as_m0":
+        return part_as_m0(s)
+    if s["part"] == "as_pg":
+        return part_as_pg(s)
     ms = [m for m, _ in meshes_of(s)]
     syms = [sy for _, sy in meshes_of(s)]
     n = len(ms)
